@@ -248,7 +248,7 @@ fn intercept_hold(d: i32, hop_delta: u32, step: u32, n_deliv: u32) -> Result<(u3
 /// (round 5) A -> B -> C where C never answers B's update_add_htlc / commitment_signed: the forwarded HTLC is in C's
 /// (the counterparty's) CURRENT commitment only, never in B's holder commitment. Blocks are delivered to B `step` at a
 /// time. Returns (outCltv, every height delivered to B, height at which B's monitor put a transaction on the wire).
-fn unrevoked_downstream(last_delta: u32, step: u32) -> Result<(u32, Vec<u32>, Option<u32>), String> {
+fn unrevoked_downstream(last_delta: u32, step: u32) -> Result<(u32, Vec<u32>, Option<u32>, u32, Vec<u32>, Option<u32>), String> {
 	use ldk_verif_harness::sim::leak;
 	use lightning::ln::functional_test_utils::*;
 	use lightning::ln::channelmanager::PaymentId;
@@ -269,6 +269,7 @@ fn unrevoked_downstream(last_delta: u32, step: u32) -> Result<(u32, Vec<u32>, Op
 	nodes[0].node.send_payment_with_route(route, hash, RecipientOnionFields::secret_only(secret, 100_000), PaymentId(hash.0)).map_err(|e| format!("send {:?}", e))?;
 	check_added_monitors(&nodes[0], 1);
 	let upd = get_htlc_update_msgs(&nodes[0], &ids[1]);
+	let in_cltv = upd.update_add_htlcs[0].cltv_expiry;
 	nodes[1].node.handle_update_add_htlc(ids[0], &upd.update_add_htlcs[0]);
 	do_commitment_signed_dance(&nodes[1], &nodes[0], &upd.commitment_signed, false, false);
 	expect_and_process_pending_htlcs(&nodes[1], false);
@@ -284,10 +285,25 @@ fn unrevoked_downstream(last_delta: u32, step: u32) -> Result<(u32, Vec<u32>, Op
 		let h = nodes[1].best_block_info().1; deliv.push(h);
 		if nodes[1].tx_broadcaster.txn_broadcasted.lock().unwrap().len() > seen0 { close_h = Some(h); break; }
 	}
-	let _ = nodes[1].node.get_and_clear_pending_events(); let _ = nodes[1].node.get_and_clear_pending_msg_events();
+	// (round 5b) B's commitment is never mined: the HTLC (only ever in the counterparty's commitment) must be failed back upstream
+	// by the monitor's pre-emptive loop once the inbound expiry is within the grace period
+	let is_fail = |evs: &Vec<lightning::events::Event>| evs.iter().any(|e| matches!(e, lightning::events::Event::HTLCHandlingFailed { failure_type: lightning::events::HTLCHandlingFailureType::Forward { .. }, .. }));
+	let mut post = vec![]; let mut fail_h = None;
+	let mut evs = nodes[1].node.get_and_clear_pending_events(); evs.extend(nodes[1].node.get_and_clear_pending_events());
+	if is_fail(&evs) { fail_h = close_h; }
+	*nodes[1].connect_style.borrow_mut() = ConnectStyle::BestBlockFirst;
+	if close_h.is_some() && fail_h.is_none() {
+		for _ in 0..(in_cltv.saturating_sub(nodes[1].best_block_info().1) + 3) {
+			connect_blocks(&nodes[1], 1);
+			let h = nodes[1].best_block_info().1; post.push(h);
+			let mut evs = nodes[1].node.get_and_clear_pending_events(); evs.extend(nodes[1].node.get_and_clear_pending_events());
+			if is_fail(&evs) { fail_h = Some(h); break; }
+		}
+	}
+	let _ = nodes[1].node.get_and_clear_pending_msg_events();
 	nodes[1].chain_monitor.added_monitors.lock().unwrap().clear();
 	std::mem::forget(nodes);
-	Ok((out_cltv, deliv, close_h))
+	Ok((out_cltv, deliv, close_h, in_cltv, post, fail_h))
 }
 
 /// (round 5) A -> B -> C, C claims, B learns the preimage and claims upstream, but A never answers B's update_fulfill_htlc /
@@ -530,6 +546,7 @@ fn main() {
 							// impl oracle (independent of the model): whatever leaves the holding cell by timeout is failed backwards in the same block
 							if *left && !*failed { rec.oracle_fail(format!("holding-cell HTLC (outbound expiry {}) left the holding cell at height {} ({}) without HTLCHandlingFailed / update_fail_htlc upstream (inbound expiry {}) [d={} style#{}]", out_cltv, h, if *locked { "splice_locked block" } else { "plain block" }, in_cltv, d, si)); }
 						}
+						rec.case("swept holdingCell", if blocks.iter().any(|b| b.2 && b.3) { "true" } else { "false" }, "e2e:swept", true);
 						if !blocks.iter().any(|b| b.2) { rec.oracle_fail(format!("holding-cell HTLC (outbound expiry {}) never timed out of the holding cell within {:?}", out_cltv, blocks)); }
 						if d == 0 && !blocks.iter().any(|b| b.1 && b.2) { rec.discarded += 1; } // the coincidence was not produced
 						let ans = if log.is_empty() { "-".to_string() } else { log.join(" ") };
@@ -554,6 +571,7 @@ fn main() {
 					for (h, c, t) in &deliv { op += &format!(" b:{}:plain:{}:{}", h, *c as u8, *t as u8); }
 					// impl oracle: the commitment goes out at the first delivered height >= expiry + grace, not before
 					let first = deliv.iter().map(|d| d.0).find(|h| *h >= out_cltv + grace as u32);
+					rec.case("swept commitment:holderCurrent", if close_h.is_some() && log.iter().any(|e| e.ends_with(":fail")) { "true" } else { "false" }, "e2e:swept", true);
 					if close_h != first { rec.oracle_fail(format!("dead downstream (step {}): B's commitment broadcast at {:?}, first delivered height >= expiry {} + grace is {:?}", step, close_h, out_cltv, first)); }
 					rec.case(&op, &if log.is_empty() { "-".to_string() } else { log.join(" ") }, &format!("e2e:node-run step={} mine_after={}", step, mine_after.min(99)), true);
 				},
@@ -579,6 +597,7 @@ fn main() {
 					if let Some(fh) = fail_h { if fh + grace as u32 + 2 * max_conf as u32 >= in_cltv { rec.oracle_fail(format!("intercepted HTLC failed back at {} with the inbound expiry {} less than grace + claim buffer away", fh, in_cltv)); } }
 					let op = format!("icpt {} {}", out_cltv, deliv.iter().map(|h| h.to_string()).collect::<Vec<_>>().join(" "));
 					rec.case(&op, &fail_h.map(|h| h.to_string()).unwrap_or("none".into()), &format!("e2e:intercept-hold step={} {}", step, if fail_h.is_some() { "timed-out" } else { "held" }), true);
+					if first.is_some() { rec.case("swept intercepted", if fail_h.is_some() { "true" } else { "false" }, "e2e:swept", true); }
 				},
 				Ok(Err(e)) => { rec.discarded += 1; rec.notes.insert(format!("intercept_hold d={} step={}", d, step), e); },
 				Err(p) => rec.oracle_fail(format!("intercept-hold scenario d={} step={} panicked: {}", d, step, p.chars().take(300).collect::<String>())),
@@ -592,9 +611,15 @@ fn main() {
 		let plans: Vec<(u32, u32)> = if args.thorough { vec![(5, 1), (8, 2), (6, 3), (12, 1), (9, 5)] } else { vec![(5, 1), (7, 2)] };
 		for (last_delta, step) in plans {
 			match guarded(std::panic::AssertUnwindSafe(move || unrevoked_downstream(last_delta, step))) {
-				Ok(Ok((out_cltv, deliv, close_h))) => {
+				Ok(Ok((out_cltv, deliv, close_h, in_cltv, post, fail_h))) => {
 					let first = deliv.iter().copied().find(|h| *h >= out_cltv + grace as u32);
 					if close_h != first { rec.oracle_fail(format!("HTLC only in the counterparty's commitment (expiry {}): B went on chain at {:?}, first delivered height >= expiry + grace is {:?} (delivered {:?}, step {})", out_cltv, close_h, first, deliv, step)); }
+					// pre-emptive upstream fail-back of an HTLC that sits only in the counterparty's commitment: at the first height with
+					// inbound expiry <= h + grace, not before, never later
+					let first_fb = post.iter().copied().find(|h| in_cltv <= *h + grace as u32);
+					if close_h.is_some() && fail_h != first_fb { rec.oracle_fail(format!("HTLC only in the counterparty's commitment, downstream commitment unconfirmed: upstream HTLC (expiry {}) failed back at {:?}, first delivered height h with expiry <= h + grace is {:?} (delivered after the close {:?})", in_cltv, fail_h, first_fb, post)); }
+					for h in &post { rec.case(&format!("preempt {} {}", in_cltv, h), if fail_h == Some(*h) { "true" } else { "false" }, &format!("e2e:preemptive counterparty-only fired={}", fail_h == Some(*h)), true); }
+					rec.case("swept commitment:counterpartyCurrent", if close_h.is_some() && fail_h.is_some() { "true" } else { "false" }, "e2e:swept", true);
 					for h in &deliv {
 						let fired = close_h == Some(*h);
 						rec.case(&format!("monscan 0 0 {} counterpartyCurrent:1:{}:0", h, out_cltv), if fired { "true" } else { "false" }, &format!("e2e:monscan counterparty-only fired={}", fired), true);
@@ -633,6 +658,7 @@ fn main() {
 			match guarded(std::panic::AssertUnwindSafe(move || prev_counterparty_only(lead, step))) {
 				Ok(Ok((out_cltv, deliv, close_h))) => {
 					let first = deliv.iter().copied().find(|h| *h >= out_cltv + grace as u32);
+					rec.case("swept commitment:counterpartyPrev", if close_h.is_some() { "true" } else { "false" }, "e2e:swept", true);
 					if close_h != first { rec.oracle_fail(format!("HTLC only in the counterparty's PREVIOUS unrevoked commitment (expiry {}): B went on chain at {:?}, first delivered height >= expiry + grace is {:?} (delivered {:?}, step {})", out_cltv, close_h, first, deliv, step)); }
 					for h in &deliv {
 						let fired = close_h == Some(*h);
